@@ -1,7 +1,2 @@
-(* Proofs/C02.v — placeholder, replaced below in the session *)
-From Coq Require Import ZArith List Bool Lia.
-From BNP Require Import Base.Prims Base.PrimsFacts Model.C02.
-Import ListNotations.
-Open Scope Z_scope.
-Lemma vcf_position_shift : forall t j, typed_col t j TIntM1 = match typed_col t j TInt with Col c => Col (map (fun x => match x with CInt v => CInt (v - 1) | y => y end) c) | ColErr => ColErr end.
-Proof. intros. unfold typed_col, opt_col. destruct (parse_int_col (t_data t) (bounds t j)); [|reflexivity]. rewrite map_map. reflexivity. Qed.
+(* Proofs/C02.v — gathers the C02 proof files. *)
+From BNP Require Export Proofs.C02_table Proofs.C02_int Proofs.C02_misc Proofs.C02_e2e.
